@@ -2,6 +2,7 @@
 with rational weights, run-time draws, run-time soft requirements) as a spec AST, their Scenic
 source, the model driver line, and the *specified* exact distribution over action logs computed
 from the AST by the property text (independent of Scenic and of the Coq model)."""
+import math
 from fractions import Fraction
 
 W = [1, 1, 2, 3, Fraction(1, 2), Fraction(1, 4), Fraction(3, 2)]
@@ -16,6 +17,37 @@ def wtxt(w):
 def q(w):
     w = Fraction(w)
     return f"{w.numerator}/{w.denominator}"
+
+
+def bnd(b):
+    """endpoint of a run-time DiscreteRange: an int (constant) or [c, kt, kx] = c + kt*currentTime + kx*x
+    (x = the last value drawn in the same body); all rational"""
+    if isinstance(b, (list, tuple)):
+        return tuple(Fraction(v) for v in b)
+    return (Fraction(b), Fraction(0), Fraction(0))
+
+
+def numtxt(v):
+    v = Fraction(v)
+    t = str(v.numerator) if v.denominator == 1 else repr(float(v))
+    return f"({t})" if t.startswith("-") else t
+
+
+def bnd_src(b, now):
+    c, kt, kx = bnd(b)
+    parts = []
+    if kx:
+        parts.append("x" if kx == 1 else f"{numtxt(kx)} * x")
+    if kt:
+        parts.append(now if kt == 1 else f"{numtxt(kt)} * {now}")
+    if c or not parts:
+        parts.append(numtxt(c))
+    return parts[0] if len(parts) == 1 else "(" + " + ".join(parts) + ")"
+
+
+def bnd_val(b, t, x):
+    c, kt, kx = bnd(b)
+    return c + kt * t + kx * x
 
 
 def guard_src(g):
@@ -63,7 +95,11 @@ def source(prog):
             if k == "take":
                 L += take(st[1])
             elif k == "draw":
-                L.append(f"{ind}x = DiscreteRange({st[1]}, {st[2]})")
+                L.append(f"{ind}x = DiscreteRange({bnd_src(st[1], now)}, {bnd_src(st[2], now)})")
+                L += take(f"{st[3]} + x")
+            elif k == "wrange":
+                n = len(st[2])
+                L.append(f"{ind}x = DiscreteRange({st[1]}, {st[1] + n - 1}, weights=({', '.join(wtxt(w) for w in st[2])},))")
                 L += take(f"{st[3]} + x")
             elif k == "wdraw":
                 L.append(f"{ind}x = Options({{" + ", ".join(f"{j}: {wtxt(w)}" for j, w in enumerate(st[1])) + "})")
@@ -100,7 +136,9 @@ def driver_line(prog):
             if k == "take":
                 t += ["TAKE", str(st[1])]
             elif k == "draw":
-                t += ["DRAW", str(st[1]), str(st[2]), str(st[3])]
+                t += ["DRAW"] + [q(v) for v in bnd(st[1])] + [q(v) for v in bnd(st[2])] + [str(st[3])]
+            elif k == "wrange":
+                t += ["WRANGE", str(st[1]), str(len(st[2]))] + [q(w) for w in st[2]] + [str(st[3])]
             elif k == "wdraw":
                 t += ["WDRAW", str(len(st[1]))] + [q(w) for w in st[1]] + [str(st[2])]
             elif k == "req":
@@ -182,12 +220,28 @@ def spec_distribution(prog, stats=None):
         if kind == "take":
             return cont((t + 1, x, log + [(t, st[1])]), p)
         if kind == "draw":
-            lo, hi = st[1], st[2]
+            # uniform over the integers k with low <= k <= high (endpoints: any rationals, evaluated now)
+            lo_v, hi_v = bnd_val(st[1], t, x), bnd_val(st[2], t, x)
+            lo, hi = math.ceil(lo_v), math.floor(hi_v)
+            if lo_v.denominator != 1 or hi_v.denominator != 1:
+                stat("draw:fractional-endpoint")
+            if bnd(st[1])[1:] != (0, 0) or bnd(st[2])[1:] != (0, 0):
+                stat("draw:state-dependent-endpoint")
             if hi < lo:
+                stat("draw:empty")
                 return emit("REJ", p)
             n = hi - lo + 1
             for v in range(lo, hi + 1):
                 cont((t + 1, v, log + [(t, st[3] + v)]), p / n)
+            return
+        if kind == "wrange":
+            # weighted range: value low + i with probability w_i / sum of the weights
+            tot = sum(Fraction(w) for w in st[2])
+            stat("wrange:low-nonzero" if st[1] != 0 else "wrange:low-zero")
+            for i, w in enumerate(st[2]):
+                if w:
+                    v = st[1] + i
+                    cont((t + 1, v, log + [(t, st[3] + v)]), p * Fraction(w) / tot)
             return
         if kind == "wdraw":
             tot = sum(Fraction(w) for w in st[1])
@@ -229,6 +283,41 @@ def spec_distribution(prog, stats=None):
 
 
 # ------------------------------------------------------------------ generator
+H_ = Fraction(1, 2)
+Q_ = Fraction(1, 4)
+
+
+def gen_draw(rng, base, allow_x=False):
+    """a run-time DiscreteRange draw; half of them with non-integral and/or state-dependent endpoints"""
+    r = rng.random()
+    if r < 0.4:
+        lo = rng.randint(0, 1)
+        return ["draw", lo, lo + rng.randint(0, 2), base]
+    kinds = ["const", "const", "time", "time", "mixed"] + (["x", "x", "x"] if allow_x else [])
+    kind = rng.choice(kinds)
+    c = rng.choice([H_, -H_, Q_, 3 * H_, Fraction(0), Fraction(1), 3 * Q_])
+    w = rng.choice([H_, Fraction(1), 3 * H_, Fraction(2), 9 * Q_, Q_, 7 * Q_])
+    if kind == "const":
+        return ["draw", [c, 0, 0], [c + w, 0, 0], base]
+    if kind == "time":
+        kt = rng.choice([Fraction(1), Fraction(1), H_])
+        return ["draw", [c, kt, 0], [c + w, kt, 0], base]
+    if kind == "mixed":       # integer low endpoint, fractional time-dependent high endpoint (or the reverse)
+        if rng.random() < 0.5:
+            return ["draw", rng.randint(0, 1), [c + 1, H_, 0], base]
+        return ["draw", [c - 1, H_, 0], rng.randint(1, 3), base]
+    kx = rng.choice([Fraction(1), H_, Fraction(-1)])
+    return ["draw", [c - 1, 0, kx], [c - 1 + w, 0, kx], base]
+
+
+def gen_wrange(rng, base):
+    n = rng.randint(2, 4)
+    ws = [rng.choice(W0) for _ in range(n)]
+    if all(w == 0 for w in ws):
+        ws[rng.randrange(n)] = 1
+    return ["wrange", rng.choice([-2, -1, 0, 1, 2, 3, 5]), ws, base]
+
+
 def gen_program(rng, form=None):
     form = form or rng.choice(["behavior", "compose"])
     nleaf = rng.randint(2, 4)
@@ -242,12 +331,17 @@ def gen_program(rng, form=None):
             if r < 0.6:
                 body.append(["take", 10 * (i + 1) + len(body)])
             elif r < 0.8:
-                lo = rng.randint(0, 1)
-                body.append(["draw", lo, lo + rng.randint(0, 2), 100 * (i + 1)])
+                d = gen_draw(rng, 100 * (i + 1))
+                body.append(d)
                 if rng.random() < 0.4:
-                    body.append(["req", rng.choice([Fraction(1), Fraction(1, 2), Fraction(1, 4)]), lo])
-            else:
+                    body.append(["req", rng.choice([Fraction(1), Fraction(1, 2), Fraction(1, 4)]),
+                                 d[1] if isinstance(d[1], int) else rng.randint(0, 1)])
+                if rng.random() < 0.3:        # endpoints computed from the value just drawn
+                    body.append(gen_draw(rng, 100 * (i + 1) + 20, allow_x=True))
+            elif r < 0.9:
                 body.append(["wdraw", [rng.choice(W0) for _ in range(rng.randint(2, 3))], 100 * (i + 1) + 50])
+            else:
+                body.append(gen_wrange(rng, 100 * (i + 1) + 70))
         behs.append(dict(pre=g, body=body))
 
     def options(pool, lo=2):
@@ -272,8 +366,10 @@ def gen_program(rng, form=None):
                     body.append(["do", rng.choice(tl)])
             elif r < 0.85:
                 body.append(["take", rng.randint(1, 9)])
+            elif r < 0.9:
+                body.append(gen_wrange(rng, 2000))
             else:
-                body.append(["draw", 0, rng.randint(1, 2), 1000])
+                body.append(gen_draw(rng, 1000) if rng.random() < 0.5 else ["draw", 0, rng.randint(1, 2), 1000])
                 if rng.random() < 0.5:
                     body.append(["req", rng.choice([Fraction(1), Fraction(1, 2), Fraction(3, 4)]), 0])
         if not body:
